@@ -16,14 +16,20 @@ K = 8
 def vlist(v):
     p = "request.listener == \"http\"" if v % 2 == 0 else "request.listener == \"nobody\""
     l = [{"filter": p, "target": "a%d" % (v % K)}]
-    for i in range(6):
+    # lists of different lengths (8, 7, .. 4 rules); every fourth has no catch-all at its end, so that whatever an implementation
+    # keeps of a longer predecessor decides the probe - which no version does
+    for i in range(6 - (v % 5)):
         l.append({"filter": "request.target.port == %d" % (1000 + i), "target": "pad"})
-    l.append({"target": "z%d" % (v % K)})
+    if v % 4 != 3:
+        l.append({"target": "z%d" % (v % K)})
     return l
 
 
 def decision(v):
-    return ("a%d" if v % 2 == 0 else "z%d") % (v % K)
+    """None = the probe matches no rule of that version: refused, no connector"""
+    if v % 2 == 0:
+        return "a%d" % (v % K)
+    return None if v % 4 == 3 else "z%d" % (v % K)
 
 
 def bad(rng, v):
@@ -90,6 +96,10 @@ async def main(args):
                         v -= 1
                     else:
                         wlog.append((v, t1, t2))
+                        if i % 4 == 1:
+                            listed = await A.api_json("/rules")
+                            if strip(listed) != strip(vlist(v)):
+                                out.violation("rule list in force after a successful POST /rules is not the posted one", {"posted_rules": len(vlist(v)), "listed_rules": len(listed)})
                         if i % 10 == 0:
                             # read-then-post of the same document
                             doc = await A.api_json("/rules")
@@ -128,7 +138,7 @@ async def main(args):
             if len(cands_h) != 1:
                 continue
             h = cands_h[0]
-            got = h.get("connector")
+            got = h.get("connector") or None
             last_before = 0
             for i, (v, c, r) in enumerate(wlog):
                 if r <= t1:
